@@ -80,7 +80,8 @@ def run(tier):
         "evaluations": tot["inputs"],
         "distinct_nontrivial": len(outcomes),
         "rule": f"all strings of <= {max_chunks} chunks over a 32-chunk alphabet (raw fragments and whole tokens); for {len(files)} repository sources every "
-        f"{sc}-th prefix / single-char deletion and each of the 32 chunks inserted at every {st}-th token boundary; nesting ladders (brackets, blocks, unary, calls, "
+        f"{sc}-th prefix / single-char deletion, each of the 32 chunks inserted at every {st}-th token boundary, and at every {st}-th token the deletion of 1, 2 and 3 consecutive tokens, "
+        "its duplication and its swap with the next token; nesting ladders (brackets, blocks, unary, calls, "
         "types, f-strings, chains) to depth 64; 96 unusual literal / identifier / operator tokens in 26 expression, pattern, type and declaration positions; distinct = distinct (stage statuses, normalised first diagnostic) outcome",
         "samples": ["def f() -> int:(", "match x:\n    case \"s\"=>0", {"file": files[0], "edit": "delete char 17"}],
         "exhaustive": True,
